@@ -113,7 +113,12 @@ def run(prop, tier, family='core', judge=None):
     family, tiers = FAMILY.get(prop, (family, None))
     try:
         recs = collect_programs(tier, family, res, rng, tiers)
-        obs = pipeline.observe_all([r['prog'] for r in recs])
+        # every third program is built in touch mode (see pipeline.observe_all)
+        touch = [i % 3 == 2 for i in range(len(recs))]
+        obs = pipeline.observe_all([r['prog'] for r in recs], touch=touch)
+        res.coverage['built_in_touch_mode'] = sum(touch)
+        for r_, t_ in zip(recs, touch):
+            r_['touch'] = t_
         records = [{'id': i + 1, 'prog': r['prog'], 'obs': o}
                    for i, (r, o) in enumerate(zip(recs, obs))]
         if prop == 'C01':
@@ -171,7 +176,7 @@ def run(prop, tier, family='core', judge=None):
                 f'{clause}: {pipeline.short(rec["prog"])}',
                 {'family': 'pipeline', 'prog': rec['prog'], 'obs': rec['obs'],
                  'verdict': [status, clause], 'model_verdict': mv,
-                 'sched': r.get('sched'), 'sched_seed': r.get('seed'),
+                 'sched': r.get('sched'), 'sched_seed': r.get('seed'), 'touch': bool(r.get('touch')),
                  'how': 'real observation judged by TLC (PipelineTrace.tla)'
                         + ('; it1 / it2 taken under seeded line-level schedules '
                            '(harness/schedobs.py)' if r.get('sched') == 'ok' else '')})
@@ -212,7 +217,7 @@ def replay(prop, path):
         o, inf = observe_sched(rp['prog'], rp['sched_seed'])
         print('schedule:', inf)
     else:
-        o = observe(rp['prog'])
+        o = observe(rp['prog'], touch=rp.get('touch', False))
     v, _ = pipeline.validate([{'id': 1, 'prog': rp['prog'], 'obs': o}])
     print('program :', pipeline.short(rp['prog']))
     print('verdict :', v[1][prop], ' conformance:', v[1]['conf'])
